@@ -419,6 +419,7 @@ type SpecFun struct {
 	Ret    string
 	Body   SExpr // nil = uninterpreted
 	Text   string
+	Reads  []string // state components passed implicitly (heap-dependent uninterpreted function)
 }
 
 type GhostVar struct {
@@ -447,6 +448,7 @@ type Contract struct {
 	Line       int
 	Pragmas    []string
 	Uses       []SCall // lemma / axiom instances to assume
+	Critical   map[int][]Clause
 }
 
 type SpecFile struct {
@@ -472,7 +474,7 @@ var (
 	reLabel    = regexp.MustCompile(`^([A-Za-z][\w\-]*):\s+`)
 	reFunHdr   = regexp.MustCompile(`^(\S.*?)(?:\s+params\((.*)\))?$`)
 	reInduct   = regexp.MustCompile(`^((?:\[[A-Z0-9 ,]+\]\s*)?[A-Za-z][\w\-]*)\s+induction\s+(\w+)(:\s+.*)$`)
-	reSpecFun  = regexp.MustCompile(`^(\w+)\((.*?)\)\s*([\w\.\*\[\]]+)(?:\s*=\s*(.*))?$`)
+	reSpecFun  = regexp.MustCompile(`^(\w+)\((.*?)\)\s*([\w\.\*\[\]]+)(?:\s+reads\s+([^=]*?))?(?:\s*=\s*(.*))?$`)
 )
 
 func parseClause(rest string, defProps []string) (Clause, error) {
@@ -636,6 +638,23 @@ func loadSpecFile(path string, sf *SpecFile) error {
 			default:
 				return fail(fmt.Errorf("unknown loop clause %q", f[1]))
 			}
+		case "critical":
+			if cur == nil {
+				return fail(fmt.Errorf("critical outside func"))
+			}
+			f := strings.Fields(rest)
+			k, err := strconv.Atoi(f[0])
+			if err != nil {
+				return fail(err)
+			}
+			c, err := parseClause(strings.TrimSpace(rest[len(f[0]):]), []string{"C13"})
+			if err != nil {
+				return fail(err)
+			}
+			if cur.Critical == nil {
+				cur.Critical = map[int][]Clause{}
+			}
+			cur.Critical[k] = append(cur.Critical[k], c)
 		case "use":
 			if cur == nil {
 				return fail(fmt.Errorf("use outside func"))
@@ -690,7 +709,12 @@ func loadSpecFile(path string, sf *SpecFile) error {
 			}
 			fn := &SpecFun{Name: m[1], Params: parseParams(m[2]), Ret: m[3], Text: rest}
 			if m[4] != "" {
-				e, err := parseSpecExpr(m[4])
+				for _, r := range strings.Split(m[4], ",") {
+					fn.Reads = append(fn.Reads, strings.TrimSpace(r))
+				}
+			}
+			if m[5] != "" {
+				e, err := parseSpecExpr(m[5])
 				if err != nil {
 					return fail(err)
 				}
